@@ -12,8 +12,9 @@
     Both ways of breaking the assumption are refuted below on C02's model of Parser.Add
     (Sio/Pipeline.v [parser_add], which - like the code - takes whatever comes next as the
     attachment it is waiting for): per-frame locking (a mutant class), and websocket traffic with
-    attachments concurrent with a late poll response (a defect of the code as it is: finding
-    upgrade-window:late-poll-vs-websocket-attachments). *)
+    attachments concurrent with a late poll response (a defect of the code before fix 63b366a, finding
+    upgrade-window:late-poll-vs-websocket-attachments; since the fix the feeders are sequential:
+    [feeders_sequential_exactly_once]). *)
 From Coq Require Import List Bool Arith Lia Permutation.
 Import ListNotations.
 From SioV Require Import Base.GoSem Sio.Pipeline.
@@ -70,6 +71,24 @@ Section Feeders.
     split; [exact H|]. split; [intros i; now apply interleave_proj|].
     rewrite H. apply perm_concat. now apply interleave_perm.
   Qed.
+  (** The repaired client (fix 63b366a: polling is paused before the probe and the swap happens
+      only once no poll is in flight and its packets were delivered; C07_no_poll_delivery_after_swap
+      in Props/C07.v: after the swap no poll request is in flight and no response is on its way,
+      for every schedule): the feeders are SEQUENTIAL - every delivery of the old transport
+      precedes every delivery of the new one.  Then nothing is required of the shape of the
+      deliveries: the old transport's deliveries carry whole packets [evs_old] (poll responses),
+      the new one's frames may be cut into deliveries in ANY way (one frame per websocket message),
+      and the parser still finishes exactly [evs_old ++ evs_new]. *)
+  Theorem feeders_sequential_exactly_once :
+    forall (evs_old evs_new : list (event name arg)) (old_ds new_ds : list (list frame)),
+      concat old_ds = flat_map enc evs_old ->
+      concat new_ds = flat_map enc evs_new ->
+      parse_deliveries (old_ds ++ new_ds) = evs_old ++ evs_new.
+  Proof.
+    intros evs_old evs_new old_ds new_ds Ho Hn. unfold parse_deliveries.
+    rewrite concat_app, Ho, Hn, <- flat_map_app.
+    now rewrite (feed_packets name arg frame enc dstate d0 dec_step codec_roundtrip).
+  Qed.
 End Feeders.
 
 (** * The two ways out of the assumption, on C02's model of Parser.Add *)
@@ -90,7 +109,7 @@ Theorem feeders_frame_granularity_refuted :
     @parse_from nat wdeclared 0 None [11; 20; 7] = Err.
 Proof. exists [11; 7], [20]. repeat split; vm_compute; reflexivity. Qed.
 
-(** (2) The code as it is: every delivery atomic, but a websocket delivery is ONE frame.  Websocket
+(** (2) The code BEFORE fix 63b366a: every delivery atomic, but a websocket delivery is ONE frame.  Websocket
     carries [header 31; attachment 8] as two deliveries, the late poll response [11; 7] wins the
     mutex between them: 31, 11, 7, 8 - header 11 is taken as the attachment of packet 31, then 7
     is not a header. *)
